@@ -33,28 +33,32 @@ def cur (s : BState) (n : Name) : Nat := (aget s.seq n).getD firstSeq
 def commit (s : BState) (n : Name) : BState :=
   match aget s.seq n with
   | some c => { s with seqCopy := aset s.seqCopy n c }
-  | none => if commitRequiresCounter then s else { s with seqCopy := aset s.seqCopy n 0 }
+  | none => s
 
 /-- `reset_checkpoint_state`: `for key, counter in list(counters.items()): copy[key] = counter` -/
 def resetCp (s : BState) : BState :=
-  if resetCopiesAll then { s with seqCopy := aupdate s.seqCopy s.seq, cpCleared := false } else s
+  { s with seqCopy := aupdate s.seqCopy s.seq, cpCleared := false }
 
 /-- `rewind` -/
 def rewindOp (s : BState) : BState :=
-  let s1 := if rewindRestoresFromCopy then { s with seq := s.seqCopy } else s
+  let s1 := { s with seq := s.seqCopy }
   let s2 :=
     if rewindReaddsDescriptorStreams then
-      s1.descriptors.foldl
-        (fun (a : BState) (nd : Name × Desc) =>
-          if ahas a.seq nd.1 then a
-          else { a with seq := aset a.seq nd.1 firstSeq, seqCopy := aset a.seqCopy nd.1 firstSeq })
+      (akeys s1.descriptors).foldl
+        (fun (a : BState) (n : Name) =>
+          if ahas a.seq n then a
+          else { a with seq := aset a.seq n firstSeq, seqCopy := aset a.seqCopy n firstSeq })
         s1
     else s1
   if rewindCancelsBundle then { s2 with bundling := false } else s2
 
 /-- `clear_checkpoint` -/
 def clearCp (s : BState) : BState :=
-  if clearCheckpointClearsCopy then { s with seqCopy := [], cpCleared := true } else s
+  { s with seqCopy := [], cpCleared := true }
+
+/-- the calls as the code makes them (each guarded by the extracted fact that the call exists) -/
+def commitR (s : BState) (n : Name) : Res := Res.pure (commit s n) [.commit n]
+def resetR (s : BState) : Res := Res.pure (resetCp s) [.reset]
 
 /-- keys of a descriptor that are not external "STREAM:" keys (event_model.keys_without_stream_keys) -/
 def nonStream (ext keys : List Key) : List Key := keys.filter (fun k => !ext.contains k)
@@ -77,7 +81,8 @@ def composeEvent (s : BState) (n : Name) (descUid : Nat) (descKeys ext : List Ke
       let s := { s with seq := aset s.seq n (c + eventIncrement) }
       { st := s
         docs := [{ kind := .event, src := src, uid := uid, run := s.run, descriptor := some descUid,
-                   stream := some n, seq := some c, keys := data.map Prod.fst, data := data, note := note }] }
+                   stream := some n, seq := some c, keys := data.map Prod.fst, data := data, note := note }]
+        cev := [.emit n c (src == .bundle)] }
 
 /-- dict-merge of the cached readings: `{k: v for d in cache for k, v in d.items()}` -/
 def mergeReadings (rs : List Reading) : List (Key × Val) :=
@@ -130,20 +135,21 @@ def prepareStream (w : World) (s : BState) (n : Name) (objsDks : List (Obj × Li
   match aget s.streams n with
   | some ks =>
     if !sameSet ks dataKeys then Res.fail s .eventModelValidationError
-    else finish s uid dataKeys config
+    else finish s uid dataKeys config []
   | none =>
     let s := { s with streams := aset s.streams n dataKeys, seq := aset s.seq n firstSeq }
-    finish s uid dataKeys config
+    finish s uid dataKeys config [CEv.newStream n]
 where
-  finish (s : BState) (uid : Nat) (dataKeys : List Key) (config : List (Obj × CfgBlock)) : Res :=
+  finish (s : BState) (uid : Nat) (dataKeys : List Key) (config : List (Obj × CfgBlock)) (pre : List CEv) : Res :=
     let d : Desc := { uid := uid, keys := dataKeys, objs := objsDks, ext := externalKeys w objsDks }
     let s := { s with descriptors := aset s.descriptors n d }
+    let ens := !ahas s.seq n
     let s :=
-      if ahas s.seq n then s
-      else { s with seq := aset s.seq n firstSeq, seqCopy := aset s.seqCopy n firstSeq }
+      if ens then { s with seq := aset s.seq n firstSeq, seqCopy := aset s.seqCopy n firstSeq } else s
     { st := s
       docs := [{ kind := .descriptor, src := .prepare, uid := uid, run := s.run, stream := some n,
-                 keys := dataKeys, objKeys := objsDks, config := config }] }
+                 keys := dataKeys, extKeys := d.ext, objKeys := objsDks, config := config }]
+      cev := pre ++ (if ens then [.ensure n] else []) }
 
 /-! ### run life cycle -/
 
@@ -151,15 +157,16 @@ where
 def openRun (cfg : BCfg) (uid0 : Nat) (envCfg : List (Obj × Config) := []) : Res :=
   let s : BState := { cfg := cfg, runOpen := true, run := uid0, nextUid := uid0 + 1, envCfg := envCfg }
   let r : Res := { st := s, docs := [{ kind := .start, src := .run, uid := uid0, run := uid0 }] }
-  r.andThen fun s =>
-    let s := if openRunResets then resetCp s else s
+  (r.andThen fun s => if openRunResets then resetR s else Res.ok s).andThen fun s =>
     if s.cfg.recordInterruptions then
       let uid := s.nextUid
       let s := { s with nextUid := uid + 1, interruptionsDesc := some uid,
                         streams := aset s.streams "interruptions" ["interruption"],
                         seq := aset s.seq "interruptions" firstSeq }
-      emit s { kind := .descriptor, src := .run, uid := uid, run := s.run, stream := some "interruptions",
-               keys := ["interruption"] }
+      { st := s
+        docs := [{ kind := .descriptor, src := .run, uid := uid, run := s.run, stream := some "interruptions",
+                   keys := ["interruption"] }]
+        cev := [.newStream "interruptions"] }
     else Res.ok s
 
 /-- `for obj, (cb, kwargs) in list(self._monitor_params.items()): obj.clear_sub(cb); del ...` -/
@@ -180,8 +187,8 @@ def closeRun (s : BState) (exit reason : Option String) : Res :=
     let s := { s with stopped := true, nextUid := uid + 1 }
     (emit s { kind := .stop, src := .run, uid := uid, run := s.run, exit := some exit, reason := some reason,
               numEvents := s.seq.map fun kv => (kv.1, kv.2 - stopOffset) }).andThen fun s =>
-      let s := if closeRunResets then resetCp s else s
-      Res.ok { s with runOpen := false }
+      (if closeRunResets then resetR s else Res.ok s).andThen fun s =>
+        Res.ok { s with runOpen := false }
 
 /-! ### bundles -/
 
@@ -267,12 +274,13 @@ def monitorUpdate (s : BState) (o : Obj) (reading : Reading) : Res :=
       | some _ => r
       | none =>
         -- commit happens between compose_event and emit_sync
-        { r with st := if monitorCommits then commit r.st m.name else r.st }
+        if monitorCommits then { r with st := commit r.st m.name, cev := r.cev ++ [.commit m.name] } else r
 
 def unmonitor (s : BState) (o : Obj) : Res :=
   if !ahas s.monitors o then Res.fail s .illegalMessageSequence else
   let s := { s with monitors := aerase s.monitors o, subs := aerase s.subs o }
-  { st := if unmonitorResets then resetCp s else s, calls := [⟨o, "clear_sub"⟩] }
+  let r : Res := { st := s, calls := [⟨o, "clear_sub"⟩] }
+  r.andThen fun s => if unmonitorResets then resetR s else Res.ok s
 
 def clearMonitors (s : BState) : Res := dropMonitors s
 
@@ -291,7 +299,9 @@ def recordInterruption (s : BState) (content : String) : Res :=
     let r := composeEvent s "interruptions" uid ["interruption"] [] [("interruption", 0)] .interruption (some content)
     match r.err with
     | some _ => r
-    | none => { r with st := if interruptionCommits then commit r.st "interruptions" else r.st }
+    | none =>
+      if interruptionCommits then { r with st := commit r.st "interruptions", cev := r.cev ++ [.commit "interruptions"] }
+      else r
 
 /-! ### configure -/
 
@@ -333,7 +343,13 @@ def declareStream (w : World) (s : BState) (n : Name) (objs : List Obj) (collect
       let s := { s with declared := declareAppend s.declared objs n }
       prepareStream w s n objsDks
 
-def kickoff (s : BState) (o : Obj) : Res := Res.ok { s with uncollected := s.uncollected ++ [o] }
+/-- `set.add` on `_uncollected`; the iteration order of that set is name order for the fakes
+    (their `__hash__` is chosen so) -/
+def setInsert : List Obj → Obj → List Obj
+  | [], o => [o]
+  | p :: t, o => if p = o then p :: t else if o < p then o :: p :: t else p :: setInsert t o
+
+def kickoff (s : BState) (o : Obj) : Res := Res.ok { s with uncollected := setInsert s.uncollected o }
 
 /-- the fake detector's `collect_asset_docs(index)` (harness/bundler_fakes.py::Det): the contract
     behaviour plus the scripted one-shot deviations `mis` -/
@@ -452,16 +468,16 @@ def collectInner (w : World) (s : BState) (objs : List Obj) (name : Option Name)
         match aget s.seq n with
         | none => Res.fail s .keyError
         | some c =>
-          Res.ok (if collectAdvancesByDifference then { s with seq := aset s.seq n (c + p.prev) } else s)
+          if collectAdvancesByDifference then Res.pure { s with seq := aset s.seq n (c + p.prev) } [.bump n c p.prev]
+          else Res.ok s
 
 /-- `collect(msg)`: `_collect` plus the `finally` that commits every counter that changed -/
 def collect (w : World) (s : BState) (objs : List Obj) (name : Option Name) (mis : List Mis) : Res :=
   let before := s.seq
   let r := collectInner w s objs name mis
   if collectCommitsChanged then
-    let st' := r.st.seq.foldl
-        (fun (a : BState) kv => if aget before kv.1 != some kv.2 then commit a kv.1 else a) r.st
-    { r with st := st' }
+    let changed := (r.st.seq.filter fun kv => aget before kv.1 != some kv.2).map Prod.fst
+    { r with st := changed.foldl commit r.st, cev := r.cev ++ changed.map CEv.commit }
   else r
 
 /-- `backstop_collect`: `for obj in list(self._uncollected): try: collect(Msg("collect", obj)) except: log` -/
@@ -469,7 +485,7 @@ def backstopCollect (w : World) (s : BState) : Res :=
   s.uncollected.foldl
     (fun (r : Res) o =>
       let r2 := collect w r.st [o] none []
-      { st := r2.st, docs := r.docs ++ r2.docs, calls := r.calls ++ r2.calls, err := none })
+      { st := r2.st, docs := r.docs ++ r2.docs, calls := r.calls ++ r2.calls, err := none, cev := r.cev ++ r2.cev })
     (Res.ok s)
 
 /-! ### dispatcher -/
@@ -487,9 +503,9 @@ def step (w : World) (s : BState) : Op → Res
   | .restoreMonitors => restoreMonitors s
   | .clearMonitors => clearMonitors s
   | .recordInterruption c => recordInterruption s c
-  | .rewind => Res.ok (rewindOp s)
-  | .resetCheckpoint => Res.ok (resetCp s)
-  | .clearCheckpoint => Res.ok (clearCp s)
+  | .rewind => Res.pure (rewindOp s) [.rewind (akeys s.descriptors)]
+  | .resetCheckpoint => resetR s
+  | .clearCheckpoint => Res.pure (clearCp s) [.clear]
   | .configure o => configure w s o
   | .declareStream n objs c => declareStream w s n objs c
   | .kickoff o => kickoff s o
@@ -506,6 +522,7 @@ structure Entry where
   docs : List Doc
   calls : List Call
   err : Option Err
+  cev : List CEv := []
 
 /-- run a history; returns the final state and the trace (one entry per operation) -/
 def runFrom (w : World) (s : BState) : List Op → BState × List Entry
@@ -513,7 +530,7 @@ def runFrom (w : World) (s : BState) : List Op → BState × List Entry
   | op :: ops =>
     let r := step w s op
     let (s', tr) := runFrom w r.st ops
-    (s', ⟨op, r.docs, r.calls, r.err⟩ :: tr)
+    (s', ⟨op, r.docs, r.calls, r.err, r.cev⟩ :: tr)
 
 def traceDocs (tr : List Entry) : List Doc := tr.flatMap (·.docs)
 
